@@ -11,38 +11,7 @@ import (
 )
 
 // render gives attributes the canonical string form shared with the reference machines.
-func render(v any) string { return renderD(v, 0) }
-
-func renderD(v any, depth int) string {
-	if depth > 40 {
-		return "..."
-	}
-	switch x := v.(type) {
-	case nil:
-		return "nil"
-	case rt.TokRef:
-		if x.Idx >= 0 {
-			return fmt.Sprintf("t%d", x.Idx)
-		}
-		return x.String()
-	case *rt.Node:
-		if x == nil {
-			return "nil"
-		}
-		var s []string
-		for _, k := range x.Kids {
-			s = append(s, renderD(k, depth+1))
-		}
-		return fmt.Sprintf("N%d(%s)", x.Alt, strings.Join(s, ","))
-	case *rt.ErrRef:
-		var s []string
-		for _, k := range x.ErrorSymbols {
-			s = append(s, renderD(k, depth+1))
-		}
-		return fmt.Sprintf("E(%s;%s)", renderD(x.ErrorToken, depth+1), strings.Join(s, ","))
-	}
-	return fmt.Sprintf("?%T(%v)", v, v)
-}
+func render(v any) string { return rt.Render(v) }
 
 func renderCalls(rec *rt.Recorder) []string {
 	var out []string
@@ -155,6 +124,10 @@ func init() {
 			}
 			ok := res.Err == nil && res.ErrOther == ""
 			calls := renderCalls(rec)
+			if res.Unstable != "" {
+				st.violation("C07", key+" unstable", pre+"an error attribute does not keep what it recorded: "+res.Unstable, cs("unstable"))
+				return
+			}
 			switch {
 			case ok != want.OK:
 				st.violation("C07", key, fmt.Sprintf("%sParse error=%v, the recovery rule gives error=%v", pre, !ok, !want.OK), cs("verdict"))
